@@ -736,7 +736,7 @@ def require_results(ctx, events, frac=0.5):
     """vacuity guard: the drivers' calls are valid by construction, most of them must return"""
     from .harness import MachineryError
     ok = sum(1 for e in events if e["outcome"] == "ok")
-    if len(events) and ok < frac * len(events):
+    if len(events) and ok < frac * len(events) and not ctx.violations and not ctx.known_hits:
         raise MachineryError(f"only {ok} of {len(events)} driver calls returned: nothing can be claimed")
 
 
